@@ -90,8 +90,8 @@ def do_op(cl, ev, default_noreply, variant, kind="client"):
     kw = {}
     if not (nr == eff_default and variant % 2 == 0):
         kw["noreply"] = nr          # otherwise rely on the documented default ...
-    elif variant % 4 == 0 and (op not in NOREPLY_DEFAULT_FALSE or op == "cas"):
-        kw["noreply"] = None        # ... or say so explicitly (None = "use the default"; for cas: falsy = wait for the reply)
+    elif variant % 4 == 0 and (op not in NOREPLY_DEFAULT_FALSE or op in ("cas", "incr", "decr")):
+        kw["noreply"] = None        # ... or say so explicitly (None = "use the default"; for cas / incr / decr: falsy = wait for the reply)
     # str and bytes keys; with several servers one spelling per key (the two spellings of a key are placed independently:
     # known finding C12/str-and-bytes-spellings..., reported by C12's own probe)
     as_str = bool(variant % 3) or kind == "hash3"
